@@ -111,7 +111,8 @@ Definition raw_outs (f : fdecl) (r : result) : Z * list (list Z) :=
   | [] => (0, [])
   | _ => match fn_out_form f with
          | FPos => (Z.of_nat (List.length (r_fields r)), map (fun v => [v_id v]) (r_fields r))
-         | _ => (1, [map v_id (r_fields r)])
+         | FStruct => (1, [map v_id (r_fields r)])
+         | FPtr => (1, [(-77) :: map v_id (r_fields r)])     (* a pointer to the struct *)
          end
   end.
 
